@@ -115,7 +115,7 @@ def get_capacity(tag_memory_size, offset, skip_bytes):
     # otherwise it's only one. But only if the capacity is more than
     # 256 the three length byte format will provide a higher value.
     capacity = max(min(capacity - 2, 254), capacity - 4)
-    return capacity
+    return max(capacity, 0)
 
 
 class Type1Tag(Tag):
